@@ -301,6 +301,11 @@ func lifecycleHarness(rc *RunCtx) {
 		if e := lc.cur(); e != nil && e.id == ep {
 			e.streamClosed = true
 			e.closedStep = s.Step
+			if simrt.TaskID() == "user" {
+				// the close that ends this epoch is performed by the user's
+				// Close(), whenever that call was invoked: a nil cause is right
+				e.userClose = true
+			}
 			e.monAliveAtClose = lc.monSet && lc.monAlive
 			e.monIdleAtClose = lc.monSet && lc.monAlive && !lc.monBusy && !lc.closeWhileBusy
 			if lc.monSet && lc.monAlive && lc.monBusy {
